@@ -4,7 +4,9 @@
 (* RFC 8017 encodings in TLA+; big-integer / curve arithmetic from the JDK).        *)
 (*                                                                                  *)
 (*  sign    Tink produced `sig` for `msg`: the reference must verify it (prefix      *)
-(*          exact, strict encoding, standard algorithm over msg [|| 0x00]).          *)
+(*          exact, strict encoding, standard algorithm over msg [|| 0x00]); `held`   *)
+(*          is the content of the returned slice after the signer's later calls and  *)
+(*          must still be that signature.                                            *)
 (*  verify  Tink was given (sig, msg) - made by Tink or by the reference signer      *)
 (*          (Plan_Sig), then mutated by the driver (kind) - and answered ok; its     *)
 (*          verdict must equal the reference's.                                      *)
@@ -43,7 +45,10 @@ PSSDiag(e) ==
 \* j = SigJudge(...) of the event: j.ok is the reference verdict SigVerify(cfg, pk, sig, msg).
 Verdict(e, j) ==
   CASE e.ev = "sign" ->
-         IF j.ok THEN <<>> ELSE <<"Tink signature rejected by the reference verifier", "TRUE", PSSDiag(e)>>
+         IF ~j.ok THEN <<"Tink signature rejected by the reference verifier", "TRUE", PSSDiag(e)>>
+         ELSE IF e.held # e.sig        \* the returned signature is the caller's value: later Sign calls must not change it
+              THEN <<"signature returned by Sign was overwritten by a later Sign call on the same signer", e.sig, "">>
+         ELSE <<>>
     [] e.ev = "verify" ->
          IF e.ok = j.ok THEN <<>>
          ELSE <<"Verify verdict differs from the reference verifier", ToString(j.ok), IF e.ok THEN PSSDiag(e) ELSE "">>
